@@ -130,15 +130,32 @@ func H18_ackqueue() {
 	ack := message.NewPubackMessage()
 	ack.SetPacketID(1)
 	q.Ack(ack)
+	// what processAcked does: collect under the queue's mutex, then use the entries outside it
+	done := q.Acked()
 	sum := 0
 	vrtGo(func() {
-		for _, am := range q.Acked() {
+		for _, am := range done {
 			m := message.NewPublishMessage()
 			m.Decode(am.Msgbuf)
-			sum += int(m.PacketID())
+			sum += int(m.PacketID()) + len(m.Payload())
 		}
 	})
+	// meanwhile another connection's fan-out registers the next delivery on this queue
 	vrtGo(func() { q.Wait(mk(uint16(n+1)), nil) })
 	vrtJoin()
+	_ = sum
 	vrtReach("C18.ackqueue")
+}
+
+// P2b: a connection is torn down after other connections delivered to it
+// (its traffic counters are updated by the delivering goroutines).
+func H18_teardown_after_delivery() {
+	b := vrtBroker("mockSuccess")
+	s, _ := b.connect(vrtConnectPkt([]byte("s"), true))
+	vrtExchange(s, &specPkt{Typ: specSUBSCRIBE, ID: 1, Topics: [][]byte{[]byte("t")}, QoS: []byte{0}})
+	p, _ := b.connect(vrtConnectPkt([]byte("p"), true))
+	vrtExchange(p, &specPkt{Typ: specPUBLISH, Topic: []byte("t"), Payload: []byte("1")})
+	s.peerClose()
+	vrtQuiesce()
+	vrtReach("C18.teardown_after_delivery")
 }
